@@ -13,7 +13,12 @@ while rest:
     elif a == '--':
         args = rest; break
 canon = {"chunks": "Whole", "eintr": "Never", "error_at": None}
-job = {"label": "hand-made: " + srcf, "source": open(srcf).read(), "includes": incs, "args": args or ["-O1"],
+def text_or_hex(b):
+    try:
+        return b.decode('utf-8')
+    except UnicodeDecodeError:
+        return {"hex": b.hex()}
+job = {"label": "hand-made: " + srcf, "source": text_or_hex(open(srcf, 'rb').read()), "includes": incs, "args": args or ["-O1"],
        "reader": canon, "writer": canon, "fuel": 0, "faults": []}
 if incs and "-I" not in job["args"]:
     job["args"] += ["-I", "$INC"]
